@@ -34,6 +34,7 @@ F-C04-1 / F-C04-2 are outside `TokDomain`.  A comment whose closing `--` and `>`
 import MdVerif.Model.ExtractText
 import MdVerif.Spec.HtmlFrag
 import MdVerif.Lemmas.HtmlTokDoc
+import MdVerif.Lemmas.PipelineH
 
 namespace MdVerif.HtmlTok
 open Py Extract HtmlFrag
@@ -136,5 +137,31 @@ def exInline : List Tok :=
 example : toksOk exInline = true := by decide +kernel
 example : exInline.all inlineTok = true := by decide +kernel
 example : renderToks exInline = "a *b* <span title=\"t > u\">c</span> &copy; d\n\ne <br />&#169;".toList := by decide +kernel
+
+/-! ### 4. the end-to-end model with the text-level preprocessor -/
+
+/-- **The two end-to-end models agree wherever both speak.**  `PipelineH.convertH` (`Model/PipelineH.lean`) is
+    `Markdown.convert` with the raw-HTML preprocessor modelled on source text (tokenizer + extractor, HTML stash handed
+    on to the inline stage); `Pipeline.convert` models the preprocessor for `<`-free text only (`Extract.extract`) and
+    answers `ood` otherwise.  On every source without `<` — any configuration — the two are equal, so every theorem
+    about `Pipeline.convert` is a theorem about `convertH`. -/
+theorem C04_convertH_agrees (cfg : Pipeline.Cfg) (src : Str) (h : '<' ∉ src) :
+    PipelineH.convertH cfg src = Pipeline.convert cfg src :=
+  PipelineH.convertH_eq_convert cfg src h
+
+/-- on text without `<` the text-level preprocessor model is `Extract.extract`: nothing is stashed, and character
+    references are re-spelled exactly as the `<`-free model says (`&#38x` comes back as `&#38;x`) -/
+theorem C04_text_ltfree (s : Str) (h : '<' ∉ s) :
+    ∃ st, extractText s = some st ∧ cleanText st = Extract.extract s ∧ st.stash = [] :=
+  let ⟨st, h1, h2, h3, _⟩ := PipelineH.extractText_ltfree s h
+  ⟨st, h1, h2, h3⟩
+
+example : '<' ∉ "a &amp; b &#38x AT&T &# c; d &".toList := by decide
+example : (extractText "a &amp; b &#38x AT&T &# c; d &".toList).map cleanText =
+    some "a &amp; b &#38;x AT&T &# c; d &".toList := by decide +kernel
+/-- with a raw block in front, `convertH` answers where `Pipeline.convert` is out of domain -/
+example : Pipeline.convert {} "<div>*x*</div>\n\n*y*".toList = .ood ∧
+    PipelineH.convertH {} "<div>*x*</div>\n\n*y*".toList = .ok "<div>*x*</div>\n\n<p><em>y</em></p>".toList := by
+  decide +kernel
 
 end MdVerif.HtmlTok
